@@ -33,6 +33,22 @@ def cases(tier, seed):
         {"inputs": ["a", "b", "c"], "list": [["t0", ["and", "a", "b"]], ["_ret.0", ["or", ["and", "t0", "c"], "a"]], ["_ret.1", ["xor", ["and", "t0", "c"], "b"]]]},
         {"inputs": ["a", "b", "c"], "list": [["t0", "a"], ["t1", ["xor", "t0", "b"]], ["t0", ["and", "t1", "c"]], ["_ret", ["or", "t0", "t1"]]]},
     ]
+    corpus += [
+        # obvious nodes composed with each other under other operators
+        {"inputs": ["a", "b"], "list": [["_ret", ["and", ["or", "b", ["not", "b"]], ["xor", "a", ["not", "a"]]]]]},
+        {"inputs": ["a", "b", "c"], "list": [["_ret", ["or", "c", ["and", ["or", "b", ["not", "b"]], ["xor", "a", ["not", "a"]]]]]]},
+        {"inputs": ["a", "b"], "list": [["_ret", ["or", ["and", "b", ["not", "b"]], ["imp", "a", ["not", "a"]]]]]},
+        {"inputs": ["a", "b"], "list": [["_ret", ["and", ["not", ["and", "b", ["not", "b"]]], ["imp", "a", ["not", "a"]]]]]},
+        # or->xnor with unequal arities
+        {"inputs": ["a", "b", "c"], "list": [["_ret", ["or", ["and", "a", "b"], ["and", ["not", "a"], ["not", "b"], ["not", "c"]]]]]},
+        {"inputs": ["a", "b", "c"], "list": [["_ret", ["or", ["and", ["not", "a"], ["not", "b"], "c"], ["and", "a", "b"]]]]},
+        # a return bit followed by a redefinition of an intermediate it used; an input called x0 passed through bare
+        {"inputs": ["a", "b", "c"], "list": [["t", ["and", "a", "b"]], ["_ret.0", ["or", "t", "c"]], ["t", ["xor", "a", "b"]], ["_ret.1", ["and", "t", "c"]]]},
+        {"inputs": ["x0", "a", "b", "c"], "list": [["_ret.0", "x0"], ["_ret.1", ["xor", ["and", "a", "b"], "c"]], ["_ret.2", ["or", ["and", "a", "b"], "c"]]]},
+        # if-then-else with complemented branches
+        {"inputs": ["a", "b", "c"], "list": [["_ret", ["ite", "a", "b", ["not", "b"]]]]},
+        {"inputs": ["a", "b", "c"], "list": [["_ret", ["ite", ["not", "a"], ["and", "b", "c"], ["not", ["and", "b", "c"]]]]]},
+    ]
     for c in corpus:
         yield dict(c, kind="list", evaluate=True, origin="corpus")
         yield dict(c, kind="list", evaluate=False, origin="corpus")
